@@ -1,5 +1,157 @@
-import Dagrt.Model.Fuse
+import Dagrt.Proofs.FuseProofs
+/-!
+# C16 — fusing two methods runs both on shared persistent state without interference
+
+Model: `Dagrt.Fuse` (`Model/Fuse.lean`) = `fuse_two_phases` with pymbolic's
+`disambiguate_identifiers` and `fuse_statement_streams_with_unique_ids` and the name generator
+model of C13.  `clash` = the iteration order of the set of names used by both methods (any
+order); the second statement list is in any order.  Theorems are for all pairs of statement
+lists, every renaming predicate, every such order.
+The behavioural clause (each method computes what it computes alone) is checked by the
+failing-input search with the real interpreter; in the model it follows from the structural
+theorems below and `C02.exec_comm` (statements of the two parts do not conflict), which is not
+assembled into one theorem here.
+-/
 namespace Dagrt.C16
-open Dagrt.Fuse
-theorem applySubst_nil (x : Dagrt.Name) : applySubst [] x = x := rfl
+open Dagrt Dagrt.Sem Dagrt.Names Dagrt.Fuse
+
+/-- initial generator of `disambiguate_identifiers`: knows every name of both methods -/
+def vng0 (A B : List FStmt) : Gen := ⟨(usedIdents A ++ usedIdents B).map String.toList, [], [], false⟩
+
+theorem vng0_conflicting (A B : List FStmt) (x : Name) (h : x ∈ usedIdents A ++ usedIdents B) :
+    (vng0 A B).conflicting x.toList = true := by
+  simp only [vng0, Gen.conflicting, Gen.norm, cond_false, List.contains_iff_mem, List.mem_map]
+  exact ⟨x, h, rfl⟩
+
+theorem sub_inv (pred : Name → Bool) (clash : List Name) (A B : List FStmt) (sub : List (Name × Name))
+    (h : disambiguate pred clash (vng0 A B) [] = some sub) :
+    ∃ g', SubInv pred clash (vng0 A B) g' sub :=
+  disambiguate_inv pred clash (vng0 A B) clash (vng0 A B) [] sub (fun _ h => h)
+    ⟨by simp, by simp, by simp, fun _ h => h, ⟨rfl, rfl⟩⟩ h
+
+/-- names for which the caller's predicate says "do not rename" (by default: persistent
+    variables, `<t>`, `<dt>`) occur unchanged in the fused second method -/
+theorem persistent_unrenamed (pred : Name → Bool) (clash : List Name) (A B : List FStmt)
+    (sub : List (Name × Name)) (h : disambiguate pred clash (vng0 A B) [] = some sub)
+    (x : Name) (hx : pred x = false) : applySubst sub x = x := by
+  obtain ⟨g', hi⟩ := sub_inv pred clash A B sub h
+  apply applySubst_of_not_key
+  intro p hp e
+  have := (hi.keys p hp).1
+  rw [e, hx] at this; cases this
+
+/-- every renamed name is new: it is used by neither method -/
+theorem renamed_is_fresh (pred : Name → Bool) (clash : List Name) (A B : List FStmt)
+    (sub : List (Name × Name)) (h : disambiguate pred clash (vng0 A B) [] = some sub) :
+    ∀ p ∈ sub, p.2 ∉ usedIdents A ++ usedIdents B := by
+  obtain ⟨g', hi⟩ := sub_inv pred clash A B sub h
+  intro p hp hmem
+  have := vng0_conflicting A B p.2 hmem
+  rw [hi.fresh p hp] at this; cases this
+
+/-- **Temporaries are disjoint.** A name used by the fused second method and also by the first
+    method is one the predicate declined to rename — with the default predicate: a persistent
+    name.  (`hclash`: the clash list contains every name used by both.) -/
+theorem temporaries_disjoint (pred : Name → Bool) (clash : List Name) (A B : List FStmt)
+    (sub : List (Name × Name)) (h : disambiguate pred clash (vng0 A B) [] = some sub)
+    (hclash : ∀ x, x ∈ usedIdents A → x ∈ usedIdents B → x ∈ clash)
+    (n : Name)
+    (hn : n ∈ usedIdents (B.map fun b => { b with stmt := renameStmt (applySubst sub) b.stmt }))
+    (ha : n ∈ usedIdents A) : pred n = false ∧ n ∈ usedIdents B := by
+  rw [usedIdents_rename] at hn
+  simp only [List.mem_map] at hn
+  obtain ⟨x, hx, he⟩ := hn
+  rcases applySubst_mem sub x with h1 | ⟨p, hp, hk, h2⟩
+  · -- x was not renamed, so n = x is used by both methods and is not a key of the substitution
+    rw [h1] at he; subst he
+    refine ⟨?_, hx⟩
+    cases hpn : pred x with
+    | false => rfl
+    | true =>
+      exfalso
+      -- x ∈ clash and pred x: the loop made x a key, so applySubst maps it to a fresh name ≠ x
+      obtain ⟨q, hq, hqx⟩ := disambiguate_keys pred x hpn clash (vng0 A B) [] sub h (Or.inl (hclash x ha hx))
+      obtain ⟨v, hv⟩ := lookup_some_of_key sub x ⟨q, hq, hqx⟩
+      have hvmem := lookup_pair_mem sub x v hv
+      have hfresh := renamed_is_fresh pred clash A B sub h (x, v) hvmem
+      have : applySubst sub x = v := by simp [applySubst, hv]
+      rw [this] at h1
+      apply hfresh; simp only; rw [h1]; simp [hx]
+  · -- n is a fresh name: it cannot be used by the first method
+    exfalso
+    have := renamed_is_fresh pred clash A B sub h p hp
+    apply this
+    rw [← h2, he]; simp [ha]
+
+/-- **Ids are unique** in the fused phase (given that each method's ids are), the first method's
+    statements are untouched, and the second method keeps its statements (renamed) in order -/
+theorem ids_unique (pred : Name → Bool) (clash : List Name) (A B out : List FStmt)
+    (h : fuse pred clash A B = some out) (hA : (A.map (·.id)).Nodup) :
+    (out.map (·.id)).Nodup ∧ ∃ B2, out = A ++ B2 ∧ B2.length = B.length := by
+  obtain ⟨sub, m, B2, hs, hm, hb, ho⟩ := fuse_some pred clash A B out h
+  have hr := renumber_spec (A.map (·.id)) _ ⟨A.map (·.id), [], [], false⟩ [] m rfl
+    (by intro a ha; simp [Gen.conflicting, Gen.norm]; simpa using ha) (by simp) (by simp) (by simp) hm
+  have hlen : m.length = (B.map fun b => { b with stmt := renameStmt (applySubst sub) b.stmt }).length := by
+    have := congrArg List.length hr.2.2
+    simpa using this
+  have hz := zipIds_spec _ m hlen
+  have hra := remapAll_spec m _ B2 hb
+  have hids : B2.map (·.id) = m.map (·.2) := by rw [hra.1, hz.1]
+  refine ⟨?_, B2, ho, ?_⟩
+  · rw [ho, List.map_append, List.nodup_append]
+    refine ⟨hA, by rw [hids]; exact hr.1, ?_⟩
+    intro a ha b hb' e; subst e
+    rw [hids] at hb'
+    simp only [List.mem_map] at hb'
+    obtain ⟨p, hp, he⟩ := hb'
+    exact hr.2.1 p hp (by rw [he]; exact ha)
+  · have := congrArg List.length hids
+    simp at this
+    rw [this, hlen]; simp
+
+/-- **Dependencies are translated, not lost or mixed**: every dependency of a fused
+    second-method statement is the new id of the corresponding old dependency (so the sub-graph is
+    the image of the original one under the id map), and it is an id of the second part -/
+theorem deps_translated (pred : Name → Bool) (clash : List Name) (A B out : List FStmt)
+    (h : fuse pred clash A B = some out) :
+    ∃ (m : List (List Char × List Char)) (B2 : List FStmt), out = A ++ B2 ∧ B2.map (·.id) = m.map (·.2) ∧
+      ∀ (k : Nat) (r b : FStmt), B2[k]? = some r → B[k]? = some b →
+        r.deps.length = b.deps.length ∧
+        ∀ (j : Nat) (d d' : List Char), b.deps[j]? = some d → r.deps[j]? = some d' → (d, d') ∈ m ∧ d' ∈ B2.map (·.id) := by
+  obtain ⟨sub, m, B2, hs, hm, hb, ho⟩ := fuse_some pred clash A B out h
+  have hr := renumber_spec (A.map (·.id)) _ ⟨A.map (·.id), [], [], false⟩ [] m rfl
+    (by intro a ha; simp [Gen.conflicting, Gen.norm]; simpa using ha) (by simp) (by simp) (by simp) hm
+  have hlen : m.length = (B.map fun b => { b with stmt := renameStmt (applySubst sub) b.stmt }).length := by
+    have := congrArg List.length hr.2.2
+    simpa using this
+  have hz := zipIds_spec _ m hlen
+  have hra := remapAll_spec m _ B2 hb
+  have hids : B2.map (·.id) = m.map (·.2) := by rw [hra.1, hz.1]
+  refine ⟨m, B2, ho, hids, ?_⟩
+  intro k r b hk hbk
+  -- the k-th zipped statement has the deps of the k-th original statement
+  have hzk : ∃ z, (zipIds (B.map fun b => { b with stmt := renameStmt (applySubst sub) b.stmt }) m)[k]? = some z ∧ z.deps = b.deps := by
+    have hd := hz.2.2
+    have h1 : ((zipIds (B.map fun b => { b with stmt := renameStmt (applySubst sub) b.stmt }) m).map (·.deps))[k]? = some b.deps := by
+      rw [hd]; simp [hbk]
+    simp only [List.getElem?_map, Option.map_eq_some_iff] at h1
+    obtain ⟨z, hz1, hz2⟩ := h1
+    exact ⟨z, hz1, hz2⟩
+  obtain ⟨z, hz1, hz2⟩ := hzk
+  have hrd := hra.2.2 k r z hk hz1
+  rw [hz2] at hrd
+  have hsp := remapDeps_spec m b.deps r.deps hrd
+  refine ⟨hsp.1, ?_⟩
+  intro j d d' hd hd'
+  have hl := hsp.2 j d d' hd hd'
+  have hmem := lookupId_mem m d d' hl
+  refine ⟨hmem, ?_⟩
+  rw [hids]; exact List.mem_map.mpr ⟨(d, d'), hmem, rfl⟩
+
+/-! non-vacuity: both methods use the temporary `a`, the flag `<cond>`, the id `p_0`, and read `<t>` -/
+def exA : List FStmt := [⟨"p_0".toList, [], ⟨.const (.bool true), .assign "a" none (.var "<t>") []⟩⟩]
+def exB : List FStmt := [⟨"p_0".toList, [], ⟨.var "<cond>", .assign "a" none (.sum [.var "a", .var "<t>"]) []⟩⟩,
+                         ⟨"p_1".toList, ["p_0".toList], ⟨.const (.bool true), .assign "<state>z" none (.var "a") []⟩⟩]
+example : usedIdents exA = ["<t>", "a"] := by decide
+
 end Dagrt.C16
